@@ -31,7 +31,11 @@ class NanWorld(World):
 
     def _gen_core(self, t, rnd, base):
         if t[0] == "named" and t[1] == "Float" and rnd.random() < 0.3:
-            return rnd.choice([float("nan"), float("inf"), float("-inf")])
+            import decimal
+
+            # non-finite numbers do not only come as python floats
+            return rnd.choice([float("nan"), float("inf"), float("-inf"), decimal.Decimal("NaN"),
+                               decimal.Decimal("-Infinity"), "inf", "1e400", "nan", 10 ** 400])
         return World._gen_core(self, t, rnd, base)
 
 
